@@ -33,8 +33,10 @@ from typing import Any, Iterable, Optional
 VERIF = Path(__file__).resolve().parents[2]
 LEAN_DIR = VERIF / "lean"
 REPO = Path(os.environ.get("VERIF_REPO", "/repo"))
-EVIDENCE_DIR = VERIF / "evidence"
-REPLAY_DIR = VERIF / "replays"
+# VERIF_EVIDENCE_DIR / VERIF_REPLAY_DIR: only for evaluating seeded changes against a scratch worktree
+# (tools_seed.sh), so that such runs never overwrite the evidence of /repo itself
+EVIDENCE_DIR = Path(os.environ.get("VERIF_EVIDENCE_DIR") or VERIF / "evidence")
+REPLAY_DIR = Path(os.environ.get("VERIF_REPLAY_DIR") or VERIF / "replays")
 CORPUS_DIR = VERIF / "harness" / "corpus"
 KNOWN_FINDINGS = VERIF / "known_findings.txt"
 ALLOWED_AXIOMS = {"propext", "Classical.choice", "Quot.sound"}
